@@ -22,6 +22,7 @@ import (
 	"mellium.im/xmpp/internal/attr"
 	"mellium.im/xmpp/internal/marshal"
 	intstream "mellium.im/xmpp/internal/stream"
+	"mellium.im/xmpp/internal/verifhook"
 	"mellium.im/xmpp/internal/wskey"
 	"mellium.im/xmpp/jid"
 	"mellium.im/xmpp/stanza"
@@ -471,6 +472,7 @@ func (s *Session) Serve(h Handler) (err error) {
 			return s.in.ctx.Err()
 		default:
 		}
+		verifhook.Yield("serve.iter")
 		err := handleInputStream(s, h)
 		switch err {
 		case nil:
@@ -488,10 +490,12 @@ func (s *Session) Serve(h Handler) (err error) {
 // If an error is returned (the original error or a different one), it has not
 // been handled fully and must be handled by the caller.
 func (s *Session) sendError(err error) (e error) {
+	verifhook.Yield("senderror.enter")
 	s.out.Lock()
 	defer s.out.Unlock()
 	s.stateMutex.Lock()
 	defer s.stateMutex.Unlock()
+	verifhook.Yield("senderror.locked")
 
 	if s.state&OutputStreamClosed == OutputStreamClosed {
 		return err
@@ -591,16 +595,21 @@ func handleInputStream(s *Session, handler Handler) (err error) {
 		s.sentStanzaMutex.Lock()
 		readerChan, ok := s.sentStanzas[id]
 		s.sentStanzaMutex.Unlock()
+		verifhook.Yield("serve.lookup.after")
 		emptySpace := xml.Name{Local: start.Name.Local}
 		if ok && readerChan.stanzaName == start.Name || readerChan.stanzaName == emptySpace {
 			inner := xmlstream.Inner(r)
+			verifhook.Yield("serve.offer.before")
 			select {
 			case readerChan.c <- iqResponder{
 				r: xmlstream.Wrap(inner, start),
 				c: readerChan.c,
 			}:
+				verifhook.Yield("serve.awaitclose.before")
 				<-readerChan.c
+				verifhook.Yield("serve.awaitclose.after")
 			case <-readerChan.ctx.Done():
+				verifhook.Yield("serve.offer.ctxdone")
 			}
 			// Consume the rest of the stream before continuing the loop.
 			_, err = xmlstream.Copy(discard, inner)
@@ -613,6 +622,7 @@ func handleInputStream(s *Session, handler Handler) (err error) {
 
 	w := &deferWriter{s: s}
 	defer w.Close()
+	verifhook.Yield("serve.handler.before")
 	rw := &responseChecker{
 		TokenReader: earlyCloser{
 			r: xmlstream.InnerElement(r),
@@ -812,6 +822,7 @@ func (lrc *lockReadCloser) Close() error {
 // io.EOF.
 func (s *Session) TokenWriter() xmlstream.TokenWriteFlushCloser {
 	s.out.Lock()
+	verifhook.Yield("tokenwriter.locked")
 
 	return &lockWriteCloser{
 		m: s.out.Locker,
@@ -839,10 +850,12 @@ func (s *Session) TokenReader() xmlstream.TokenReadCloser {
 // Calling Close() multiple times will only result in one closing
 // </stream:stream> being sent.
 func (s *Session) Close() error {
+	verifhook.Yield("close.enter")
 	s.out.Lock()
 	defer s.out.Unlock()
 	s.stateMutex.Lock()
 	defer s.stateMutex.Unlock()
+	verifhook.Yield("close.locked")
 
 	return s.closeSession()
 }
@@ -908,6 +921,7 @@ func (s *Session) SetCloseDeadline(t time.Time) error {
 func (s *Session) Encode(ctx context.Context, v interface{}) error {
 	s.out.Lock()
 	defer s.out.Unlock()
+	verifhook.Yield("encode.locked")
 
 	defer setWriteDeadline(ctx, s.conn)()
 	return marshal.EncodeXML(s.out.e, v)
@@ -920,6 +934,7 @@ func (s *Session) Encode(ctx context.Context, v interface{}) error {
 func (s *Session) EncodeElement(ctx context.Context, v interface{}, start xml.StartElement) error {
 	s.out.Lock()
 	defer s.out.Unlock()
+	verifhook.Yield("encodeelement.locked")
 
 	defer setWriteDeadline(ctx, s.conn)()
 	return marshal.EncodeXMLElement(s.out.e, v, start)
@@ -941,8 +956,10 @@ func (s *Session) SendElement(ctx context.Context, r xml.TokenReader, start xml.
 }
 
 func send(ctx context.Context, s *Session, r xml.TokenReader, start *xml.StartElement) error {
+	verifhook.Yield("send.enter")
 	s.out.Lock()
 	defer s.out.Unlock()
+	verifhook.Yield("send.locked")
 
 	defer setWriteDeadline(ctx, s.conn)()
 
@@ -964,6 +981,7 @@ func send(ctx context.Context, s *Session, r xml.TokenReader, start *xml.StartEl
 	if err != nil {
 		return err
 	}
+	verifhook.Yield("send.started")
 	_, err = xmlstream.Copy(s.out.e, r)
 	if err != nil {
 		return err
@@ -998,6 +1016,7 @@ func (s *Session) sendResp(ctx context.Context, id string, payload xml.TokenRead
 		ctx:        ctx,
 	}
 	s.sentStanzaMutex.Unlock()
+	verifhook.Yield("sendresp.registered")
 	defer func() {
 		s.sentStanzaMutex.Lock()
 		delete(s.sentStanzas, id)
@@ -1009,8 +1028,10 @@ func (s *Session) sendResp(ctx context.Context, id string, payload xml.TokenRead
 		return nil, err
 	}
 
+	verifhook.Yield("sendresp.select.before")
 	select {
 	case rr := <-c:
+		verifhook.Yield("sendresp.received")
 		return rr, nil
 	case <-ctx.Done():
 		return nil, ctx.Err()
@@ -1020,6 +1041,7 @@ func (s *Session) sendResp(ctx context.Context, id string, payload xml.TokenRead
 // closeInputStream immediately marks the input stream as closed and cancels any
 // deadlines associated with it.
 func (s *Session) closeInputStream() {
+	verifhook.Yield("closeinput.enter")
 	s.in.Lock()
 	defer s.in.Unlock()
 	s.stateMutex.Lock()
